@@ -99,7 +99,10 @@ class Pages(Files):
                     filepath, stat_result, if_none_match, if_modified_since
                 )(scope, receive, send)
             if stat.S_ISDIR(stat_result.st_mode):
-                url = URL(scope=scope)
+                try:
+                    url = URL(scope=scope)
+                except ValueError:  # a Host header that is no URL authority
+                    raise HTTPException(400) from None
                 url = url.replace(scheme="", path=url.path + "/")
                 return await RedirectResponse(url)(scope, receive, send)
 
